@@ -147,3 +147,11 @@ impl PutToTargetPeersContext {
         }
     }
 }
+
+#[cfg(litep2p_verif)]
+impl PutToTargetPeersContext {
+    /// Verification hook: read access to the private progress counters.
+    pub(crate) fn verif_state(&self) -> (usize, &HashSet<PeerId>, usize) {
+        (self.peers_to_succeed, &self.pending_peers, self.n_succeeded)
+    }
+}
